@@ -144,6 +144,24 @@ pub trait Elem: Sized + 'static {
     fn fresh(key: u32) -> Self;
     fn uid(&self) -> u64;
     fn key(&self) -> u32;
+    /// Re-create the value described by a model cell (Copy element types only).
+    fn rebuild(_m: crate::model::Mc) -> Self {
+        panic!("harness: element type cannot be rebuilt");
+    }
+    /// Does a clone carry the uid (Copy types) or mint a fresh one?
+    const CLONE_KEEPS_UID: bool = false;
+    /// Dispatch of the `T: Copy`-only CopyOps; only Copy element types override this.
+    fn copy_call<X: toodee::CopyOps<Self>>(_x: &mut X, _c: CopyCall<'_, Self>) {
+        panic!("harness: element type is not Copy");
+    }
+}
+
+pub enum CopyCall<'a, T> {
+    Slice(&'a [T]),
+    Owned(&'a toodee::TooDee<T>),
+    View(&'a toodee::TooDeeView<'a, T>),
+    ViewMut(&'a toodee::TooDeeViewMut<'a, T>),
+    Within(toodee::Coordinate, toodee::Coordinate, toodee::Coordinate),
 }
 
 thread_local! {
@@ -182,6 +200,19 @@ impl Hash for Kv {
 }
 impl Elem for Kv {
     const NAME: &'static str = "Kv";
+    const CLONE_KEEPS_UID: bool = true;
+    fn rebuild(m: crate::model::Mc) -> Kv {
+        Kv { key: m.key, uid: m.uid as u32 }
+    }
+    fn copy_call<X: toodee::CopyOps<Kv>>(x: &mut X, c: CopyCall<'_, Kv>) {
+        match c {
+            CopyCall::Slice(s) => x.copy_from_slice(s),
+            CopyCall::Owned(o) => x.copy_from_toodee(o),
+            CopyCall::View(v) => x.copy_from_toodee(v),
+            CopyCall::ViewMut(v) => x.copy_from_toodee(v),
+            CopyCall::Within(a, b, d) => x.copy_within((a, b), d),
+        }
+    }
     fn fresh(key: u32) -> Kv {
         let uid = KV_NEXT.with(|c| {
             let v = c.get();
@@ -313,6 +344,7 @@ impl Zst {
 }
 impl Elem for Zst {
     const NAME: &'static str = "Zst";
+    const CLONE_KEEPS_UID: bool = true;
     const IS_ZST: bool = true;
     const OWNS: bool = true;
     fn fresh(_key: u32) -> Zst {
